@@ -24,7 +24,8 @@ Ops (request = `C02.<op>\t<arg>…`):
 * `C02.replay <line;line;…>` — a whole history as emitted by
   harness/tiera_trace.go (`node …` lines, `start`, then events; an optional line
   `mode fullreset` before `start` selects `Config.FullStageReset` semantics).  Reply
-  `ok <number of lines>[ note=failed-fork-masked@<line index>]` (the note: first
+  `ok <number of lines>[ note=reopened-finished-node][ note=failed-fork-masked@<line index>]`
+  (`reopened…`: a restart gave an already finished node new forks; `masked`: first
   snapshot at which a node has a failed fork but `Node.getState` ≠ failed) or `reject <0-based line index> <reason…>`.
   `snapshot` lines are compared with the model's own derived states
   (`reject i snapshot-mismatch …`).  One normalisation is applied: the tracer
@@ -241,7 +242,8 @@ def handle (op : String) (args : List String) : Option String :=
     pure (nodeStateOf fs (ps.all fun p => p == .complete || p == .disabled)).name
   | "replay", [h] =>
     match replayLines h with
-    | .ok (n, _, note) => some s!"ok {n}{noteStr note}"
+    | .ok (n, s, note) =>
+      some s!"ok {n}{if s.reopened then " note=reopened-finished-node" else ""}{noteStr note}"
     | .error e => some e
   | "final", [h] =>
     match replayLines h with
